@@ -529,3 +529,5 @@ def run(tier, seed):
                  "traces_validated_against_impl": col.evaluations}
 
 RULE += (' Beyond small: 9..129 tasks at the default schedule (9 and 17 also with pre-emptions), batches that are not recorded in problem.individuals, batches mixing individual classes, 33..257 (thorough 1025) tasks through real joblib.')
+
+RULE += (" Variants of the batch (same schedules, bound 0-2): designs at repeated points, a one-shot iterator handed to the evaluator, a last design that fails permanently (the call raises after five attempts, what was evaluated stays stored), custom data whose serialisation is a scheduling point, scheduling points after every numpy call of artap.individual, the gradient evaluator (designs and their finite-difference children in one batch, with and without a transient failure of the first design). The model executor follows joblib's contract for `timeout` (a slow task raises TimeoutError in the caller) and `require` (without 'sharedmem' an outer process-based context may run the tasks on pickled copies). Two workers throughout.")
